@@ -39,10 +39,21 @@ theorem tnSels_fst (s : SchemaD) : ∀ (w : View) (xs : List Sel), (tnSels s w x
     simp only [tnSels, selsNodes, List.map_append, tnSel_fst s w x, tnSels_fst s w xs]
 end
 
+theorem tnVarDef_fst (s : SchemaD) (w : View) (v : VarDef) : (tnVarDef s w v).map (·.1) = varDefNodes v := by
+  simp only [tnVarDef, varDefNodes, List.map_append, withView_fst, tnDirs_fst, List.cons_append, List.append_assoc,
+    List.nil_append]
+  cases v.default <;> rfl
+
+theorem tnVarDefs_fst (s : SchemaD) (w : View) (vs : List VarDef) :
+    (vs.flatMap (tnVarDef s w)).map (·.1) = vs.flatMap varDefNodes := by
+  induction vs with
+  | nil => rfl
+  | cons v vs ih => simp only [List.flatMap_cons, List.map_append, tnVarDef_fst, ih]
+
 theorem tnDef_fst (s : SchemaD) (x : Def) : (tnDef s x).map (·.1) = defNodes x := by
   cases x with
   | op kind name vars dirs ssid sels =>
-    simp only [tnDef, defNodes, List.map_cons, List.map_append, withView_fst, tnDirs_fst, tnSels_fst]
+    simp only [tnDef, defNodes, List.map_cons, List.map_append, tnVarDefs_fst, tnDirs_fst, tnSels_fst]
   | frag name on dirs ssid sels =>
     simp only [tnDef, defNodes, List.map_cons, List.map_append, tnDirs_fst, tnSels_fst]
   | ts a b => rfl
